@@ -267,8 +267,11 @@ func genLogCase(r *core.Rand, tier string) []string {
 	for _, m := range ms {
 		ops = append(ops, "m "+m)
 	}
-	if r.Chance(1, 5) {
+	switch r.Intn(5) {
+	case 0:
 		return append(ops, "runmod")
+	case 1, 2:
+		return append(ops, "runws") // the stream writes into the real marbl.Handler (retains the slices) with a websocket subscriber
 	}
 	return append(ops, "run")
 }
